@@ -386,6 +386,9 @@ func runC09Ctx(p *Prog, r *Report) {
 				probs = append(probs, "RangePtr not set")
 			} else if exprStr(v) != cname+".ParentRangePtr" {
 				okRange := false
+				if c, ok := ast.Unparen(v).(*ast.CallExpr); ok && ctxRangeHelper(fn, c, cname) {
+					okRange = true // the same choice made by a helper, called in place
+				}
 				if id, ok := ast.Unparen(v).(*ast.Ident); ok {
 					defs := defsOfIdent(fn, info.ObjectOf(id))
 					hasCtx := false
@@ -862,6 +865,10 @@ func ctxRangeHelper(fn *Func, call *ast.CallExpr, cname string) bool {
 			txt := exprStr(c)
 			for formal, actual := range bind {
 				if txt == formal+".Range().Ptr()" && strings.HasSuffix(actual, ".expr") {
+					return true
+				}
+				// the helper is a method of the expression type: <recv>.expr.Range().Ptr()
+				if txt == formal+".expr.Range().Ptr()" && actual != "" {
 					return true
 				}
 			}
